@@ -165,6 +165,16 @@ def apply_real(cls, t, ev):
                 d.pop(col + "_offset", None)
             getattr(t, op)(**d)
             return 1, [], t
+        if op == "append_stray":
+            o = CLASSES[cls]()
+            d = o.asdict()
+            d.pop("metadata_schema", None)
+            col = ev["col"]
+            k_ = ev["k"]
+            d[col] = np.zeros(k_, dtype=d[col].dtype)
+            d[col + "_offset"] = np.array([k_], dtype=d[col + "_offset"].dtype)
+            t.append_columns(**d)
+            return 1, [], t
         if op == "setattr":
             col, vals = ev["col"], ev["vals"]
             dt = getattr(t, col).dtype
@@ -214,7 +224,7 @@ def random_history(rng, cls, nops):
     for _ in range(nops):
         n = len(t)
         choices = ["add_row", "add_row", "append", "setitem", "getitem", "truncate", "clear", "set_columns", "append_columns",
-                   "setattr", "packset", "slice", "mask", "ids", "keep_rows", "copy"] + (["drop_metadata"] if has_meta else [])
+                   "setattr", "packset", "slice", "mask", "ids", "keep_rows", "copy", "append_stray"] + (["drop_metadata"] if has_meta else [])
         op = rng.choice(choices)
         ev = dict(op=op)
         if op in ("add_row", "append"):
@@ -232,6 +242,9 @@ def random_history(rng, cls, nops):
             for r in ev["rows"]:
                 for c_ in ev["omit"]:
                     r[c_] = copy.deepcopy(OPTIONAL[cls][c_])
+        elif op == "append_stray":
+            ev["col"] = rng.choice(RAGGED[cls])
+            ev["k"] = rng.randint(1, 3)
         elif op == "setattr":
             if not scal:
                 continue
